@@ -13,6 +13,8 @@ RULES = {
              "previous iteration; nothing is cached across iterations)",
     "R08.3": "isolation: non-admin Execute paths write no cell other than ALLOWANCES[info.sender]",
     "R08.4": "admin-only grants: every other write to ALLOWANCES / PERMISSIONS is guarded by is_admin(stored, info.sender) = true",
+    "R08.7": "no other writer: entry points other than execute (instantiate, migrate, ...) write neither ALLOWANCES nor PERMISSIONS - "
+             "a grant, its balance and its expiry change only through the guarded handlers above",
     "R08.5": "increase: amount is added (NativeBalance +=) to the stored entry only when it is unexpired, else to a fresh "
              "default; a new expiry must satisfy is_expired = false; decrease: fails on missing/expired entries, uses "
              "sub_saturating with the message's coin, and removes the entry when the result is empty",
@@ -77,6 +79,15 @@ def run(ctx):
                     ctx.ob("R08.5", key + "/form", prob is None, detail=prob, sites=[e.site], sample={"value": show(e.value)[:300]})
                 if not upd:
                     ctx.ob("R08.5", key + "/form", False, detail="DecreaseAllowance Ok-path without an ALLOWANCES update")
+    for ename, fn in sorted(eps.items()):
+        if ename in ("execute", "query"):
+            continue
+        bad = []
+        for p in ctx.summarise(fn):
+            if not p.is_err():
+                bad += [e for e in p.effects if e.kind == "write" and e.item in (ALW, PERM)]
+        ctx.ob("R08.7", "%s writes no grants" % ename, not bad, sites=[e.site for e in bad],
+               detail="%s rewrites subkey grants: %s" % (ename, [repr(e)[:160] for e in bad[:2]]), sample={"writes": 0})
     ctx.floor("R08.1", "spend paths", n_spend, 1)
     ctx.floor("R08.5", "increase paths", n_inc, 2)
     ctx.floor("R08.5", "decrease paths", n_dec, 2)
